@@ -159,10 +159,28 @@ func c02inProcess(ctx *Ctx) {
 	codec := getCodec(r)
 	l := r.Local()
 	item := 0
-	for _, ip := range c02ips {
-		for _, teid := range c02teids {
-			for _, upf := range c02ips {
-				for _, q := range []int{9, 300, -9} {
+	// QoS-rules lengths for which the setup request is exactly 2046, 2047 and 2048 octets long
+	var c02sizeTargets []int
+	{
+		_, acfg := n2config(explore.Replay(nil))
+		ch := refamf.DefaultChoices()
+		ch.UEIP, ch.TEID, ch.UPFIP, ch.QosRulesLen = [][]byte{c02ips[0]}, [][]byte{c02teids[0]}, [][]byte{c02ips[0]}, 1500
+		probe := refamf.New(acfg, ch, codec).SetupRequestSize(ch.AmfUeIDBase, 1)
+		for _, target := range []int{2046, 2047, 2048} {
+			c02sizeTargets = append(c02sizeTargets, 1500+target-probe)
+		}
+		r.Set("setup_request_sizes_aimed_at", []int{2046, 2047, 2048})
+	}
+	for ipIdx, ip := range c02ips {
+		for teidIdx, teid := range c02teids {
+			for upfIdx, upf := range c02ips {
+				qs := []int{9, 300, -9}
+				if ipIdx == 0 && teidIdx == 0 && upfIdx == 0 {
+					// QoS-rules lengths that make the whole PDU SESSION RESOURCE SETUP REQUEST 2046, 2047 and 2048 octets
+					// long (the emulator reads into a 2048-octet buffer): found from the size at a probe length
+					qs = append(qs, c02sizeTargets...)
+				}
+				for _, q := range qs {
 					item++
 					if !ctx.Mine(item) {
 						continue
@@ -187,6 +205,7 @@ func c02inProcess(ctx *Ctx) {
 						return
 					}
 					amfDone := make(chan struct{})
+					maxDown := 0
 					go func() {
 						defer close(amfDone)
 						buf := make([]byte, 65536)
@@ -196,6 +215,9 @@ func c02inProcess(ctx *Ctx) {
 								return
 							}
 							for _, rep := range a.HandleUplink(append([]byte{}, buf[:n]...)) {
+								if len(rep) > maxDown {
+									maxDown = len(rep)
+								}
 								syscall.Sendmsg(fds[0], rep, nil, nil, 0)
 							}
 							if len(a.Viol) > 0 {
@@ -227,6 +249,9 @@ func c02inProcess(ctx *Ctx) {
 					conn.Close()
 					ctx.ClearCase()
 					l.Case(cs, true, fmt.Sprint(gotIP, gotTEID, gotUPF))
+					if q > 1000 {
+						r.Set(fmt.Sprintf("largest_downlink_message_with_qosRules_%d", q), maxDown)
+					}
 					for _, v := range a.Viol {
 						r.Violate("amf/"+v.Key, cs, v.Detail, nil)
 					}
